@@ -430,7 +430,7 @@ func (w *worker) runCase(tc *tcase) {
 		switch o2.settled {
 		case "crash":
 			w.count("listener_crashes_confirmed", 1)
-			w.crashed[inputClass(tc.d, w.secret)]++
+			w.crashed[crashKey(tc.d, w.secret)]++
 			o = first // judge what was observed on the first attempt; the second only attributes the death to d
 			fo = nil
 			w.respawn()
@@ -527,8 +527,17 @@ func (w *worker) account(tc *tcase, o, fo *outcome, f *fence) {
 
 const batchSize = 16
 
+// crashKey: input class, with length fields beyond the listener's 4096-octet buffer kept apart from the rest.
+func crashKey(d, secret []byte) string {
+	c := inputClass(d, secret)
+	if len(d) >= 4 && int(d[2])<<8|int(d[3]) > 4096 {
+		c += "/L>4096"
+	}
+	return c
+}
+
 func (w *worker) skipAfterCrash(tc *tcase) bool {
-	if c := inputClass(tc.d, w.secret); w.crashed[c] >= run.Pick(2, 1) {
+	if c := crashKey(tc.d, w.secret); w.crashed[c] >= run.Pick(2, 1) {
 		// Spawning a process costs ~0.2 s here. Once datagrams of this input class have been confirmed to kill this
 		// base request's listener, nothing else can be observed for the class (the death precedes every other
 		// effect), so the remaining ones are counted, not sent. With the defect repaired nothing is skipped.
